@@ -19,13 +19,18 @@ ENVELOPE = 16.0
 
 def gen_nodes(rng):
     m = rng.randint(2, 14)
-    kind = rng.choice(['uniform', 'random', 'clustered', 'permuted', 'onesided', 'dyadic', 'almost-uniform'])
+    kind = rng.choice(['uniform', 'random', 'clustered', 'permuted', 'onesided', 'dyadic', 'almost-uniform', 'integers'])
     if kind == 'almost-uniform':
         h = rng.choice([1.0, 0.5, 0.1, 1e-3, 1e-7])
         rel = 10.0 ** rng.uniform(-9, -3)
         c = rng.uniform(-5, 5)
         m = rng.choice([3, 5, 7, 9, m])
         xs = [c + h * ((i - m // 2) + rel * rng.uniform(-1, 1)) for i in range(m)]
+    elif kind == 'integers':
+        # whole-number nodes (range(-2, 3), multiples of 7, irregular integers), expansion points that are no short dyadic fractions
+        sp = rng.choice([1, 1, 2, 7, 30])
+        c0 = rng.randint(-5, 5)
+        xs = [c0 + sp * (i - m // 2) for i in range(m)] if rng.random() < 0.7 else sorted(rng.sample(range(-40, 41), m))
     elif kind == 'uniform':
         h = rng.choice([1.0, 0.5, 0.1, 1e-3, 2.0 ** -rng.randint(0, 12)])
         c = rng.uniform(-5, 5)
@@ -47,7 +52,9 @@ def gen_nodes(rng):
         return gen_nodes(rng)
     where = rng.choice(['inside', 'outside', 'node', 'first'])
     lo, hi = min(xs), max(xs)
-    if where == 'inside':
+    if kind == 'integers' and rng.random() < 0.6:
+        x0 = rng.choice([0.1, 1.0 / 3.0, 2.3, -0.7, float(rng.choice(xs)) + 0.5, float(rng.choice(xs))])
+    elif where == 'inside':
         x0 = rng.uniform(lo, hi)
     elif where == 'outside':
         x0 = hi + rng.uniform(0.01, 1) * (hi - lo + 1e-3) if rng.random() < 0.5 else lo - rng.uniform(0.01, 1) * (hi - lo + 1e-3)
@@ -167,7 +174,11 @@ def run(ctx):
                         fornberg.fd_weights_all(np.array(xs) * (1 + jit), x0 * (1 + jit) if rng.random() < 0.5 else x0, n)
                     else:
                         fornberg.fd_weights_all(np.array(xs, dtype=np.float32), np.float32(x0), n)
-            w = fornberg.fd_weights_all(np.array(xs), x0, n)
+            xs_arg = np.array(xs)
+            if all(float(v) == int(v) for v in xs) and rng.random() < 0.7:
+                # whole-number nodes given as what a user types: a list of Python ints, a range-like integer array
+                xs_arg = rng.choice([[int(v) for v in xs], np.array([int(v) for v in xs]), np.array([int(v) for v in xs], dtype=np.int32)])
+            w = fornberg.fd_weights_all(xs_arg, x0, n)
             ctx.keep('fd_weights_all', w, xs=list(map(float, xs)), x0=float(x0), n=n)
         except Exception as ex:
             ctx.violation('fd_weights_all raised %r' % ex, x=xs, x0=x0, n=n)
